@@ -10,6 +10,7 @@ import (
 
 	"verif/internal/mon"
 	"verif/internal/refauth2"
+	"verif/internal/refder"
 	"verif/internal/refguid"
 )
 
@@ -67,9 +68,27 @@ func checkC10(r *mon.Run) {
 		}
 		data := make([]byte, dl)
 		rng.Read(data)
+		if i%11 == 3 {
+			// certificate data that is a complete DER SEQUENCE followed by a few bytes (zeros or not):
+			// the bytes after the element belong to the value like all others
+			body := make([]byte, rng.Intn(600))
+			rng.Read(body)
+			if i%22 == 3 {
+				body = refder.TLV(0x02, []byte{1})
+			}
+			tail := make([]byte, 1+rng.Intn(9))
+			if i%33 != 3 {
+				for k := range tail {
+					tail[k] = 0
+				}
+			} else {
+				rng.Read(tail)
+			}
+			data = append(refder.TLV(0x30, body), tail...)
+		}
 		var g [16]byte
 		rng.Read(g[:])
-		if i%3 == 0 {
+		if i%3 == 0 || i%11 == 3 && i%2 == 1 {
 			copy(g[:], fromLib(signature.EFI_CERT_TYPE_PKCS7_GUID).Wire())
 		}
 		pl := rng.Intn(4097)
